@@ -28,6 +28,8 @@
                                                           Component.add -> to_ical -> from_ical
     zn_utc       line | "err:OverflowError"               how = "add:" name | "set"
     zn_days      y.m.d ";" 0|1                            ofDays n and whether toDays gives n back
+  Every op but zn_clean / zn_days takes a last argument `tag` (provider and route; ignored: it keeps the cases
+  of the two providers apart).
   `unmodelled`: non-ASCII value text or property name (str.upper / int are Unicode-aware), a needed offset
   that is not tabulated, a period whose start is not a date-time.
 -/
@@ -194,6 +196,17 @@ def readOf (P : Provider Nat) (klass : String) (uname : Str) (ln : Line) : Optio
   | "period" => some (readFreebusy P ln)
   | _ => none
 
+/-- `vPeriod.__init__` compares start and end of two date-times; the model does not (see `periodKindOk`).
+    The order is beyond doubt when the wall clocks are more than 100000 s apart in the right direction. -/
+def orderClear : Item Nat → Bool
+  | .period (.dt a) (.dt b) => decide (toSec b.wall - toSec a.wall ≥ 100000)
+  | _ => true
+
+def freebusyClear (klass : String) (r : CRes (List (Item Nat))) : Bool :=
+  match klass, r with
+  | "period", .ok its => its.all orderClear
+  | _, _ => true
+
 /-- every date-time of the items, for the offset table check -/
 def itemDts : Item Nat → List (ZDT Nat)
   | .val (.dt v) => [v]
@@ -211,21 +224,21 @@ open ZonedP
 def handleZoned (op : String) (args : List String) : Option String :=
   match op, args with
   | "zn_clean", [id] => some (encStr (cleanTzid (decStr id)))
-  | "zn_timezone", [env, id] =>
+  | "zn_timezone", [env, id, _tag] =>
     match decEnv env with
     | some e => some (match tzpTimezone e.P (decStr id) with | some z => toString z | none => "-")
     | none => some "bad-args"
-  | "zn_vdt", [env, v] =>
+  | "zn_vdt", [env, v, _tag] =>
     match decEnv env, decZdt v with
     | some e, some v => let r := dtToIcal e.P v; some (encOpt r.2 ++ "|" ++ encStr r.1)
     | _, _ => some "bad-args"
-  | "zn_vdt_from", [env, text, tzid] =>
+  | "zn_vdt_from", [env, text, tzid, _tag] =>
     match decEnv env, decOpt tzid with
     | some e, some tzid =>
       let t := decStr text
       if !ascii t then some "unmodelled" else some (encRes encZdt (dtFromIcal e.P t tzid))
     | _, _ => some "bad-args"
-  | "zn_line", [env, klass, items] =>
+  | "zn_line", [env, klass, items, _tag] =>
     match decEnv env, decItems items with
     | some e, some its =>
       if !its.all itemOk then some "unmodelled" else
@@ -233,16 +246,16 @@ def handleZoned (op : String) (args : List String) : Option String :=
       | some ln => some (encLine ln)
       | none => some "bad-args"
     | _, _ => some "bad-args"
-  | "zn_read", [env, klass, uname, line] =>
+  | "zn_read", [env, klass, uname, line, _tag] =>
     match decEnv env, decLine line with
     | some e, some ln =>
       let un := decStr uname
       if !ascii ln.text || !ascii un then some "unmodelled" else
       match readOf e.P klass un ln with
-      | some r => some (encRes (encItems encZdt) r)
+      | some r => if freebusyClear klass r then some (encRes (encItems encZdt) r) else some "unmodelled"
       | none => some "bad-args"
     | _, _ => some "bad-args"
-  | "zn_rt", [env, klass, name, items] =>
+  | "zn_rt", [env, klass, name, items, _tag] =>
     match decEnv env, decItems items with
     | some e, some its =>
       let nm := decStr name
@@ -261,10 +274,12 @@ def handleZoned (op : String) (args : List String) : Option String :=
         | none => some "bad-args"
         | some ln =>
           match readOf e.P klass (upper nm) ln with
-          | some r => some (encLine ln ++ "#" ++ encRes (encItems (encZdtOff e)) r)
+          | some r =>
+            if freebusyClear klass r then some (encLine ln ++ "#" ++ encRes (encItems (encZdtOff e)) r)
+            else some "unmodelled"
           | none => some "bad-args"
     | _, _ => some "bad-args"
-  | "zn_utc", [env, how, v] =>
+  | "zn_utc", [env, how, v, _tag] =>
     match decEnv env, decZdt v with
     | some e, some v =>
       let tabulated : Bool := match v.zone with
